@@ -48,6 +48,49 @@ def check_per_tu_state(rep, db, rule="R-C18-statics"):
     return n
 
 
+def tls_address_escapes(rep, db):
+    """R-C18-tls [escape]: the address of a thread_local object stored in a data member (default member initialiser or constructor
+    initialiser): the member names the record of the thread that CONSTRUCTED the object, whichever thread uses it later"""
+    tls = {v["d"] for v in db.statics if v.get("tls") and "d" in v}
+    if not tls:
+        return
+
+    def addr_of_tls(x):
+        if isinstance(x, dict):
+            if x.get("k") == "un" and x.get("op") == "&":
+                y = x.get("e")
+                while isinstance(y, dict) and y.get("k") in ("paren", "icast", "cast") and "e" in y:
+                    y = y["e"]
+                if isinstance(y, dict) and y.get("k") in ("ref", "member") and y.get("d") in tls:
+                    return y.get("n") or "?"
+            for v in x.values():
+                if isinstance(v, (dict, list)):
+                    r = addr_of_tls(v)
+                    if r:
+                        return r
+        elif isinstance(x, list):
+            for v in x:
+                r = addr_of_tls(v)
+                if r:
+                    return r
+        return None
+    for r in db.records:
+        if r.get("dep") or not (r.get("n") or "").startswith("rlbox"):
+            continue
+        for fl in r.get("fields") or []:
+            nm = addr_of_tls(fl.get("init")) if fl.get("init") is not None else None
+            if nm:
+                rep.violation("R-C18-tls", "member %s::%s [address of a thread_local]" % (r["n"], fl["n"]), "the data member '%s' is initialised with the address of the thread_local object '%s': every thread that uses this sandbox object "
+                              "then reads and writes the record of the thread that constructed it (callbacks on one thread see another thread's sandbox; unsynchronised writes)" % (fl["n"], nm), fl.get("loc") or r["loc"], db.label)
+    for f in db.functions:
+        if f.get("dep") or f.get("kind") != "ctor" or not (f.get("n") or "").startswith("rlbox"):
+            continue
+        for ini in f.get("inits", []):
+            nm = addr_of_tls(ini.get("e"))
+            if nm:
+                rep.violation("R-C18-tls", "%s [address of a thread_local]" % f["n"], "a constructor stores the address of the thread_local object '%s' in a data member" % nm, f["loc"], db.label)
+
+
 def run(rep, tier):
     rep.rule("R-C18-statics", "every variable with static storage duration defined by the headers (static data members, namespace scope, function-local statics, embedder-TLS macro variables) "
              "is immutable (const/constexpr), thread_local, a lock, or listed as guarded by a named lock; anything else is shared mutable state between instances")
@@ -72,6 +115,7 @@ def run(rep, tier):
                 rep.inconclusive("R-C18-publish", site(f), str(ex), inst_)
     for db in dbs:
         check_per_tu_state(rep, db)
+        tls_address_escapes(rep, db)
     for db in dbs:
         rep.units.append(db.label)
         label = db.label
